@@ -75,6 +75,8 @@ struct Global {
   std::uint64_t seed = 1;
   long max_execs = 1000000;
   long preempt_bound = -1;
+  int tailsplit = 0;       // per execution: how often a process may be preempted right AFTER a visible operation
+  int tail_budget = 0;
   FILE* out = nullptr;
   bool quiet_events = false;
   // per execution
@@ -302,7 +304,8 @@ void FlushSlice(ProcState* st) {
   if (!st->slice_op.empty()) {
     s += "," + st->slice_op;
   } else {
-    s += ",\"a\":\"none\",\"o\":\"-\"";
+    s += ",\"a\":\"none\",\"api\":" + JsonStr(st->api) +
+         ",\"o\":\"-\",\"old\":\"-\",\"new\":\"-\",\"arg\":\"-\",\"exp\":\"-\",\"ok\":true,\"spur\":false,\"ord\":\"\",\"ford\":\"\"";
   }
   s += ",\"obs\":[";
   for (std::size_t i = 0; i != st->obs.size(); ++i) {
@@ -504,6 +507,18 @@ bool HookInject() {
     st->uar.clear();
   }
   st->has_op = false;
+  if (g.tail_budget > 0) {
+    // "tail split": let other processes run between the operation and the plain code that follows it (finds
+    // misplaced plain accesses right after a publishing operation); such executions no longer have one event per
+    // slice and are judged by the abstract monitors only
+    static const std::vector<std::string> kNames{"go", "split"};
+    if (Choose(2, kNames, "tail") == 1) {
+      --g.tail_budget;
+      g_in_hook = false;
+      yaclib::fault::Scheduler::RescheduleCurrent();
+      g_in_hook = true;
+    }
+  }
   return true;
 }
 
@@ -736,6 +751,7 @@ ExecResult RunExecution(const Scenario& sc, const std::map<std::string, std::str
   g.diverge_msg.clear();
   g.lines.clear();
   g.finals.clear();
+  g.tail_budget = g.tailsplit;
   g.time_choice = false;
   g.time_announced = false;
   g.last_time = 0;
@@ -755,7 +771,11 @@ ExecResult RunExecution(const Scenario& sc, const std::map<std::string, std::str
       s += (first ? "" : ",") + JsonStr(k) + ":" + JsonStr(v);
       first = false;
     }
-    s += "}}";
+    s += "}";
+    if (g.tailsplit > 0) {
+      s += ",\"tailsplit\":true";
+    }
+    s += "}";
     EmitLine(s);
   }
 
@@ -857,6 +877,16 @@ void Obs(const std::string& kind, const std::string& value) {
   } else if (G().active) {
     EmitLine("{\"e\":\"robs\",\"obs\":[" + s + "]}");
   }
+}
+
+void NameSelf(const std::string& name) {
+  auto& g = G();
+  if (!g.active) {
+    return;
+  }
+  HookGuard hg;
+  auto* st = ProcFor(yaclib::fault::Scheduler::GetId());
+  st->name = name;
 }
 
 Api::Api(const char* name) : prev{""} {
@@ -1048,6 +1078,8 @@ int Main(int argc, char** argv) {
       g.seed = std::strtoull(next().c_str(), nullptr, 10);
     } else if (a == "--preempt") {
       g.preempt_bound = std::atol(next().c_str());
+    } else if (a == "--tailsplit") {
+      g.tailsplit = std::atoi(next().c_str());
     } else if (a == "--sched") {
       sched_arg = next();
     } else if (a == "--choices") {
